@@ -271,6 +271,18 @@ def R3_reference_update(run):
     if ok:
         fd = strip(cs[0][2][1])[2]
         ok = is_param(fd[0], "current_tick_index") and arg_name(fd[1]) == "tick_group_size"
+    # the skip range is sized from the *updated* reference: every read of the reference fields in `new` comes after update_reference
+    if cs:
+        ub = cs[0][0]
+        late = []
+        from rules.common import field_reads
+        for fld in ("volatility_reference", "tick_group_index_reference"):
+            for (bi_, si_) in field_reads(nw, fld):
+                if not (cfg.dominates(nw, ub, bi_) and bi_ != ub):
+                    late.append(fld)
+        run.check("R3", "range-from-updated-reference", not late and bool(field_reads(nw, "volatility_reference")) and bool(field_reads(nw, "tick_group_index_reference")),
+                  "FeeRateManager::new reads %s before update_reference(): the saturation (skip) range would be sized from the stale reference" % sorted(set(late)), loc=nw.loc(),
+                  detail="volatility_reference / tick_group_index_reference are read only after update_reference()?")
     run.check("R3", "reference-inputs", ok, "FeeRateManager::new does not update the reference with (floor(current_tick / tick_group_size), timestamp, constants)?", loc=nw.loc(), detail="update_reference(floor(tick / group_size), now, constants)?")
 
 
@@ -344,6 +356,24 @@ def R4_gates(run):
         pv = prov_of(fn)
         ok = g and is_param(pv._rvalue(ws[0]["rv"], ws[0]["block"], ws[0]["stmt"], 0), "current_timestamp")
     run.check("R4", "major-swap-only", ok, "last_major_swap_timestamp is stored outside `if is_major_swap(..)?` or not from the current timestamp", loc=fn.loc(), detail="is_major_swap(pre, post, threshold)? => ts := now")
+    ms = facts.need_fn(AFV + "is_major_swap")
+    run.touch(ms)
+    okr = [dict(strip(l)[3])["0"] for l in _returns(ms) if strip(l)[0] == "agg" and strip(l)[2] == "Ok"]
+    ok = len(okr) == 1 and strip(okr[0])[0] == "bin" and strip(okr[0])[1] in ("Ge", "Le")
+    if ok:
+        r = strip(okr[0])
+        big, tgt = (r[2], r[3]) if r[1] == "Ge" else (r[3], r[2])
+        big = strip(big)
+        ok = big[0] == "field" and big[2] == "1" and is_call(big[1], "increasing_price_order")
+        shr = [s_ for s_ in subterms(tgt) if s_[0] == "call" and s_[1].endswith("shift_right")]
+        ok = ok and len(shr) == 1 and (const_val(shr[0][2][1]) == 64 or (strip(shr[0][2][1])[0] == "cast" and const_val(strip(shr[0][2][1])[1]) == 64))
+        if ok:
+            mul = strip(shr[0][2][0])
+            ok = mul[0] == "call" and mul[1].endswith("::mul") and \
+                any(mentions(x, lambda s_: s_[0] == "field" and s_[2] == "0" and is_call(s_[1], "increasing_price_order")) for x in mul[2]) and \
+                any(mentions(x, lambda s_: s_[0] == "call" and s_[1].endswith("sqrt_price_from_tick_index") and mentions(s_, lambda z: z[0] == "param" and z[1] == "major_swap_threshold_ticks")) for x in mul[2])
+    run.check("R4", "is_major_swap", ok, "is_major_swap is not `larger >= (smaller * price(threshold ticks)) >> 64` (a move of exactly the threshold counts)", loc=ms.loc(),
+              detail="larger >= (smaller * sqrt_price_from_tick_index(threshold)) >> 64")
     cs = calls_to(fn, ends("AdaptiveFeeVariables::is_major_swap"))
     ok = len(cs) == 1 and is_param(cs[0][2][0], "pre_sqrt_price") and is_param(cs[0][2][1], "post_sqrt_price") and arg_name(cs[0][2][2]) == "major_swap_threshold_ticks"
     run.check("R4", "major-swap-inputs", ok, "is_major_swap is not given (pre price, post price, constants.major_swap_threshold_ticks)", loc=fn.loc(), detail="(pre, post, threshold)")
